@@ -519,6 +519,8 @@ def run_solution(case):
     if not back.equals(sol):
         diffs.append("library-equals")
     steps = range(back.data_range[0], back.data_range[1] + 1)
+    dt_full = None if sol.dynamics is None else np.array(sol.dynamics.dt, float)
+    times_full = np.array(sol.times, float)
     if case["route"] in ("disk", "chain"):
         if tuple(back.data_range) != tuple(sol.data_range):
             diffs.append("data_range")
@@ -530,6 +532,11 @@ def run_solution(case):
                     diffs.append(f"step{i}.{nm}")
             if dict(sol.tdgl_data.state).keys() != dict(back.tdgl_data.state).keys():
                 diffs.append(f"step{i}.state-keys")
+            # the per-step records and times of the whole run stay available whichever frame is loaded
+            if dt_full is not None and (back.dynamics is None or not np.array_equal(np.asarray(back.dynamics.dt, float), dt_full)):
+                diffs.append("dynamics-depend-on-loaded-frame")
+            if not np.array_equal(np.asarray(back.times, float), times_full):
+                diffs.append("times-depend-on-loaded-frame")
     else:
         for nm in ("psi", "mu", "supercurrent", "normal_current", "induced_vector_potential", "applied_vector_potential", "epsilon"):
             if not strict_array(getattr(sol.tdgl_data, nm), getattr(back.tdgl_data, nm)):
